@@ -4,14 +4,22 @@ Correspondence: the generated classes carry logging `__init__` / `__post_init__`
 log (which object, which parameters were already set) and the set of constructed objects of
 `config.instance(context, objects=store)` — one call, or two calls sharing the `ObjectStore` — and of
 the job side (`params.json` written by `outputjson`, then `run.py::run` / `fromParameters(as_instance=True)`)
-are compared event for event with the Lean model M5 (Drive/Serial.lean: `instanceLog`, `runLog`).
+are compared with the Lean model M5 (Drive/Serial.lean: `instanceLog`, `runLog`, `loadStateLog`): per object event for
+event (creation — `Config.__new__` is tapped on the loading routes —, `__init__`, `__post_init__` with the parameters set at
+that moment), the sequence of executions exactly, "everything built before anything is executed" and "a `__post_init__` only
+receives objects that exist" as facts; NOT the interleaving of the construction events of different objects, which the
+property leaves free (`seriallib.canon_log`: e.g. all `__post_init__` calls moved after the last assignment is the same
+behaviour and does not alarm; one missing, doubled or made before a parameter of its object is set does).
 Monitors (implementation only): exactly one runtime object per reachable configuration, attributes
 wired like the graph (identity of shared and cyclic references), `__post_init__` exactly once per object
 with every parameter already set, every pre-task executed exactly once, init tasks once, in order,
 after the pre-tasks and before the task body; thorough: the same counts in real job processes.
 Cases `c13m` (c13x_multiroot.py, impl/c13x_multiroot_worker.py): several graphs saved together and loaded as runtime objects
 through `from_state_dict` / `load` (as_instance=True): the returned value mirrors the written one, one object per
-configuration across roots, `__post_init__` once on every object the caller receives, after its parameters."""
+configuration across roots, `__post_init__` once on every object the caller receives, after its parameters (monitors) +
+correspondence with `loadStateLog` / `fromStateDictInst` (driver op `loadstate`): call log as above, the parameter values of
+every created object, the returned value.  Pre-tasks are not executed on this route (`C13.state_load_runs_no_pretask`; the
+model and the code agree: no `exec` event on either side); the monitor `CHECK_PRETASKS_ON_STATE_LOAD` stays disabled."""
 import random
 
 from .. import common, seriallib
@@ -50,7 +58,7 @@ def correspond(ctx):
     mrng = random.Random(f"c13-multiroot-{ctx.seed}")
     mlibs, mcases = c13x_multiroot.make_cases(ctx, mrng, ctx.scale(4, 12), ctx.scale(60, 120), "c13m")
     mrecs = seriallib.run(ctx, mlibs, mcases, shards=ctx.scale(8, 12))
-    seriallib.evaluate(ctx, mlibs, mcases, mrecs, "values with several roots loaded as runtime objects", with_model=False)
+    seriallib.evaluate(ctx, mlibs, mcases, mrecs, "values with several roots loaded as runtime objects: call log / attributes / returned value")
     if not ctx.quick():
         plibs, pcases = seriallib.make_proc_cases(ctx, rng, "c13", 8, 15, "c13p")
         precs = seriallib.run(ctx, plibs, pcases, shards=12)
